@@ -31,6 +31,9 @@ def removeGuard : String := "dateBeforeCutoff"
 /-- RemoveMessage calls in DoScan and its callback (unexported helpers followed) -/
 def removeCalls : Nat := 1
 
+/-- EVERY method of the visited store (the scanner field VisitMailboxes is called on; local aliases and unexported helpers followed) that DoScan and its visitor callback call, as (method, number of call sites, guard), sorted by method; guard: once = reached unconditionally outside every loop | removeGuard = the site described by sweepLoop / removeGuard / removeArgs (inside the range loop over the snapshot, under exactly the date comparison) | always | conditional (":loop" appended inside a loop) | mixed; a use of the store that is not the receiver of a method call appears as ("<escapes>", n, "-") -/
+def storeCalls : List (String × Nat × String) := [("RemoveMessage", 1, "removeGuard"), ("VisitMailboxes", 1, "once")]
+
 /-- RemoveMessage is called on the same scanner field VisitMailboxes is called on -/
 def removeOnVisitedStore : Bool := true
 
